@@ -16,7 +16,7 @@ class C12(Prop):
     quick_budget_s = 60
     rule = ('typed tables (1..4 nullable columns over int / double / string / boolean, 0..6 rows, doubles dyadic so float '
             'arithmetic is exact) split into 1..4 partitions x chains of 1..3 relational operations (select with aliased '
-            'expressions, withColumn (new and existing name), filter, drop, withColumnRenamed, toDF, union, unionByName, distinct, '
+            'expressions or, in one chain of eight, a first projection of bare columns that lists one twice, withColumn (new and existing name), filter, drop, withColumnRenamed, toDF, union, unionByName, distinct, '
             'dropDuplicates, orderBy with per-key direction and nulls first/last, limit) whose expressions are type-directed trees '
             'of depth <= 3 over arithmetic, comparison, AND/OR/NOT, null tests, between, coalesce, when/otherwise. The collected '
             'rows and column names are compared with the Lean model and the Lean SQL reference: ordered while the row order is '
@@ -43,36 +43,51 @@ class C12(Prop):
         def new_name():
             fresh[0] += 1
             return 'n%d' % fresh[0]
-        for _ in range(rng.randint(1, 3)):
+        repeated = rng.random() < .12      # a chain that starts from a projection listing a column twice (SELECT i, i, d)
+        for step in range(max(2, rng.randint(1, 3)) if repeated else rng.randint(1, 3)):
             choices = ['select', 'select', 'withColumn', 'withColumn', 'filter', 'filter', 'orderBy', 'orderBy', 'drop', 'rename', 'toDF',
                        'union', 'unionByName', 'distinct', 'dropDuplicates']
             if ordered:
                 choices += ['limit', 'limit']
             op = rng.choice(choices)
+            dup = [n for n in cur_names if cur_names.count(n) > 1]
+            vis = [t if n not in dup else 'hidden' for n, t in zip(cur_names, cur_types)]
+            single = [n for n in cur_names if n not in dup]
+            if dup:
+                # columns whose name is carried twice cannot be referenced by name (legitimately ambiguous): expressions,
+                # renames and key lists use the other columns only; union needs a table with unique names
+                if op in ('union', 'unionByName'):
+                    op = 'withColumn'
+            if repeated and step == 0:
+                picks = [rng.randrange(len(cur_names)) for _ in range(rng.randint(1, 3))]
+                picks.insert(rng.randint(0, len(picks)), rng.choice(picks))
+                case['ops'].append({'op': 'select', 'cols': [{'e': {'op': 'col', 'i': i}, 'name': cur_names[i], 'bare': True} for i in picks]})
+                cur_names, cur_types = [cur_names[i] for i in picks], [cur_types[i] for i in picks]
+                case.setdefault('types_trace', []).append(list(cur_types))
+                continue
             if op == 'select':
                 cols, nt = [], []
                 for _ in range(rng.randint(1, 3)):
-                    t = rng.choice(G.TYPES)
-                    t = rng.choice([x for x in cur_types] + G.TYPES)
-                    cols.append({'e': G.gen_expr(rng, cur_types, t, rng.choice([0, 1, 2, 2, 3])), 'name': new_name()})
+                    t = rng.choice([x for x in vis if x != 'hidden'] + G.TYPES)
+                    cols.append({'e': G.gen_expr(rng, vis, t, rng.choice([0, 1, 2, 2, 3])), 'name': new_name()})
                     nt.append(t)
                 case['ops'].append({'op': 'select', 'cols': cols})
                 cur_names, cur_types = [c['name'] for c in cols], nt
             elif op == 'withColumn':
-                t = rng.choice([x for x in cur_types] + G.TYPES)
+                t = rng.choice([x for x in vis if x != 'hidden'] + G.TYPES)
                 name = rng.choice(cur_names) if rng.random() < .4 else new_name()
-                case['ops'].append({'op': 'withColumn', 'name': name, 'e': G.gen_expr(rng, cur_types, t, rng.randint(0, 3))})
+                case['ops'].append({'op': 'withColumn', 'name': name, 'e': G.gen_expr(rng, vis, t, rng.randint(0, 3))})
                 if name in cur_names:
-                    cur_types[cur_names.index(name)] = t
+                    cur_types = [t if n == name else x for n, x in zip(cur_names, cur_types)]
                 else:
                     cur_names, cur_types = cur_names + [name], cur_types + [t]
             elif op == 'filter':
-                case['ops'].append({'op': 'filter', 'e': G.gen_expr(rng, cur_types, 'bool', rng.randint(1, 3))})
+                case['ops'].append({'op': 'filter', 'e': G.gen_expr(rng, vis, 'bool', rng.randint(1, 3))})
             elif op == 'orderBy':
                 keys = []
                 for _ in range(rng.randint(1, 3)):
-                    t = rng.choice([x for x in set(cur_types)] or ['int'])
-                    e = G.gen_expr(rng, cur_types, t, rng.choice([0, 0, 1]))
+                    t = rng.choice(sorted(set(vis) - {'hidden'}) or ['int'])
+                    e = G.gen_expr(rng, vis, t, rng.choice([0, 0, 1]))
                     keys.append({'e': e, 'asc': rng.random() < .5, 'nullsFirst': rng.random() < .5})
                 case['ops'].append({'op': 'orderBy', 'keys': keys})
             elif op == 'drop':
@@ -85,7 +100,7 @@ class C12(Prop):
                 keep = [i for i, n in enumerate(cur_names) if n not in d]
                 cur_names, cur_types = [cur_names[i] for i in keep], [cur_types[i] for i in keep]
             elif op == 'rename':
-                old = rng.choice(cur_names + ['missing'])
+                old = rng.choice(single + ['missing'])
                 new = new_name()
                 case['ops'].append({'op': 'rename', 'old': old, 'new': new})
                 cur_names = [new if n == old else n for n in cur_names]
@@ -108,7 +123,9 @@ class C12(Prop):
             elif op == 'dropDuplicates':
                 if not ordered:
                     continue     # which duplicate survives depends on the (now undefined) row order
-                case['ops'].append({'op': 'dropDuplicates', 'cols': rng.sample(cur_names, rng.randint(1, len(cur_names)))})
+                if not single:
+                    continue
+                case['ops'].append({'op': 'dropDuplicates', 'cols': rng.sample(single, rng.randint(1, len(single)))})
                 ordered = False
             elif op == 'limit':
                 case['ops'].append({'op': 'limit', 'n': rng.randint(0, 5)})
@@ -130,6 +147,10 @@ class C12(Prop):
             dict(base, ops=[{'op': 'orderBy', 'keys': [{'e': col(0), 'asc': False, 'nullsFirst': True},
                                                          {'e': col(1), 'asc': True, 'nullsFirst': False}]}]),
             dict(base, ops=[{'op': 'drop', 'names': ['missing', 'b']}]),
+            # SELECT a, a, b then a new value for b: the two copies of a stay (third hunt, repaired in c4f04bd)
+            dict(base, ops=[{'op': 'select', 'cols': [{'e': col(0), 'name': 'a', 'bare': True}, {'e': col(0), 'name': 'a', 'bare': True},
+                                                        {'e': col(1), 'name': 'b', 'bare': True}]},
+                            {'op': 'withColumn', 'name': 'b', 'e': {'op': 'not', 'e': col(2)}}]),
         ] + self.moving_columns()
 
     @staticmethod
@@ -185,7 +206,9 @@ class C12(Prop):
                 op = o['op']
                 ctx.note('op:' + op)
                 if op == 'select':
-                    df = df.select(*[G.to_column(c['e'], names, colcache).alias(c['name']) for c in o['cols']])
+                    # a bare entry is the column itself (select("i", "i", "d")): no alias, so the projection may repeat a column
+                    df = df.select(*[names[c['e']['i']] if c.get('bare') else G.to_column(c['e'], names, colcache).alias(c['name'])
+                                     for c in o['cols']])
                     nconst += sum(1 for c in o['cols'] if G.is_constant(c['e']))
                     ctx.note('expressions_total', len(o['cols']))
                     names = [c['name'] for c in o['cols']]
